@@ -9,6 +9,7 @@ import (
 	"compress/flate"
 	"encoding/binary"
 	"fmt"
+	"github.com/lxzan/gws"
 	"io"
 )
 
@@ -251,4 +252,35 @@ func lastN(b []byte, n int) []byte {
 		return b[len(b)-n:]
 	}
 	return b
+}
+
+// headerLengthSweep: frameHeader.GenerateHeader for every opcode class, both roles and declared lengths at every
+// length-form boundary and far beyond what can be sent in a test (up to 2^62: `int` is 64 bits and the limits are
+// configurable), compared with the harness's own RFC 6455 encoder and read back through frameHeader.Parse.
+func headerLengthSweep(c *Ctx) {
+	lens := []int64{0, 1, 125, 126, 127, 65535, 65536, 65537, 1<<24 - 1, 1 << 24, 1<<31 - 1, 1 << 31, 1<<32 - 1, 1 << 32, 1<<32 + 5, 1<<40 + 3, 1<<48 + 7, 1<<56 + 1, 1<<62 - 1, 1 << 62}
+	for i := 0; i < 40; i++ {
+		lens = append(lens, int64(c.Rng.Uint64()>>uint(1+c.Rng.Intn(40))))
+	}
+	for _, server := range []bool{true, false} {
+		for _, ln := range lens {
+			for _, opc := range []int{1, 2, 0} {
+				fin, comp := ln%2 == 0, ln%3 == 0 && opc != 0
+				got := gws.VerifGenerateHeader(server, fin, comp, uint8(opc), int(ln))
+				want := encodeFrame(frameSpec{Fin: fin, Rsv1: comp, Opcode: opc, Masked: !server, DeclLen: ln})
+				tag := fmt.Sprintf("header server=%v opcode=%d fin=%v rsv1=%v length=%d", server, opc, fin, comp, ln)
+				n := len(want)
+				if !server {
+					n -= 4 // the mask key is random
+				}
+				bad := len(got) != len(want) || !bytes.Equal(got[:min(n, len(got))], want[:n])
+				back, perr := gws.VerifParseHeader(got)
+				if bad || perr != nil || int64(back) != ln {
+					c.oracleFail(fmt.Sprintf("frame header for a payload of %d bytes is % x (an RFC 6455 encoder gives % x); read back it declares %d bytes (err %v) [%s]", ln, got, want[:n], back, perr, tag),
+						"header-length", map[string]any{"tag": tag, "header_hex": fmt.Sprintf("%x", got)})
+				}
+				c.count(tag, true, "kind=header-length")
+			}
+		}
+	}
 }
